@@ -22,6 +22,11 @@ Theorem C12_signed_data_closed_form : forall s recs,
 Proof. exact signed_data_closed. Qed.
 Print Assumptions C12_signed_data_closed_form.
 
+Theorem C12_signed_data_keeps_every_record : forall s r recs,
+  length (signed_data s (r :: recs)) = (length (signed_data s recs) + length (rfc_rr s r))%nat.
+Proof. exact signed_data_keeps_every_record. Qed.
+Print Assumptions C12_signed_data_keeps_every_record.
+
 Theorem C12_signer_input_is_rfc4034 : forall k o t c ttl rrset inc exp s scratch,
   uniform o t c ttl rrset ->
   sign_rrset k rrset inc exp = Ok (s, scratch) ->
